@@ -395,6 +395,7 @@ class Repo:
     def __init__(self, root=None):
         self.root = root or DEFAULT_ROOT
         self._all_funcs = []
+        self.consulted = set()  # functions the rules of this run asked for / located results in
         self.modules = {}
         self.files = []
         for rel in PKG_FILES:
@@ -453,6 +454,12 @@ class Repo:
     def func(self, qual, required=True):
         """'parglare.glr.GLRParser._reduce' or 'parglare.tables.first'.  A method
         moved to a base class of the same hierarchy is still found (MRO)."""
+        f = self._func(qual, required)
+        if f is not None:
+            self.consulted.add(f)
+        return f
+
+    def _func(self, qual, required=True):
         parts = qual.split(".")
         for i in range(len(parts) - 1, 0, -1):
             modname = ".".join(parts[:i])
@@ -521,7 +528,17 @@ class RuleCtx:
         self.error = None
         self.facts = {}
 
+    def _consult(self, node):
+        if node is not None and self.report.repo is not None:
+            try:
+                f = self.report.repo.func_of(node)
+            except Exception:  # noqa: BLE001 -- synthetic nodes have no home
+                f = None
+            if f is not None:
+                self.report.repo.consulted.add(f)
+
     def ok(self, instance, detail=None, node=None):
+        self._consult(node)
         self.obligations += 1
         self.discharged += 1
         if len(self.samples) < 6:
@@ -534,6 +551,7 @@ class RuleCtx:
 
     def violation(self, construct, message, node=None, detail=None):
         """A definite violation, keyed by (rule, construct)."""
+        self._consult(node)
         self.obligations += 1
         v = {
             "property": self.report.prop,
@@ -665,6 +683,8 @@ class Report:
                 P(f"RESOLVED-FINDING: property={self.prop} rule={e.get('rule')} "
                   f"construct={e.get('construct')} is listed as open but was not observed")
         vdir = os.path.join(VERIF, "evidence", "violations")
+        if os.environ.get("PGV_EVIDENCE"):
+            vdir = os.environ["PGV_EVIDENCE"] + ".violations"
         replay_paths = []
         if unlisted:
             os.makedirs(vdir, exist_ok=True)
